@@ -142,6 +142,10 @@ pub struct ScenarioD2 {
     /// lock on that instrument's shared book for a moment
     #[serde(default)]
     pub reader_at: Option<usize>,
+    /// the consumer maintains a single book (instrument 0) with `OrderBookMapSingle` although the
+    /// connection carries several instruments: the others' events must pass it by
+    #[serde(default)]
+    pub single_map: bool,
     pub futures: bool,
     pub insts: Vec<InstD2>,
     pub conns: Vec<ConnD2>,
@@ -581,6 +585,7 @@ impl Sim for SimD2 {
             });
         }
         ScenarioD2 {
+            single_map: rng.chance(1, 6),
             reader_at: if faulty && rng.chance(1, 80) { Some(rng.usize(8)) } else { None },
             futures,
             insts,
@@ -730,9 +735,15 @@ impl Sim for SimD2 {
                 reader_fired: reader_fired.clone(),
                 reader_release: None,
             };
-            let manager = OrderBookL2Manager { stream: probe, books: book_map.clone() };
             // the reconnecting stream never ends: run until the script is exhausted and quiet
-            let _ = tokio::time::timeout(Duration::from_secs(600), manager.run()).await;
+            if sc.single_map {
+                let only = barter_data::books::map::OrderBookMapSingle::new(0usize, book_map.find(&0).expect("book 0"));
+                let manager = OrderBookL2Manager { stream: probe, books: only };
+                let _ = tokio::time::timeout(Duration::from_secs(600), manager.run()).await;
+            } else {
+                let manager = OrderBookL2Manager { stream: probe, books: book_map.clone() };
+                let _ = tokio::time::timeout(Duration::from_secs(600), manager.run()).await;
+            }
             let calls = *attempt.lock().unwrap();
             let _ = start.elapsed();
             (calls, *last_ms_out.lock().unwrap())
@@ -741,6 +752,9 @@ impl Sim for SimD2 {
         stats.sim_time_ms = end_ms.min(600_000);
         if *reader_fired.lock().unwrap() {
             stats.fault("busy_reader_on_shared_book");
+        }
+        if sc.single_map && n_inst > 1 {
+            stats.probe("single_book_map_on_multi_instrument_stream");
         }
 
         let plog = probe_log.lock().unwrap();
@@ -1061,6 +1075,7 @@ impl Sim for SimD2 {
             "non_terminal_error_handled",
             "gap_free_delivery_with_old_prefix",
             "gap_in_handshake_buffer",
+            "single_book_map_on_multi_instrument_stream",
         ]
     }
     fn assumptions(&self) -> Vec<String> {
